@@ -1,6 +1,7 @@
 /-
   C08  First matching chain judges; every filter in it must allow; unmatched is denied.
 -/
+import AuthProofs.StateInventory
 import AuthProofs.Chain
 import AuthProofs.CodeEquiv
 namespace AuthProps.C08
@@ -87,6 +88,9 @@ theorem code_matches_spec (env : Go.Env) (m : Pb.Match) (req : Pb.CheckRequest) 
 example : Code.matches_ {} { Header := B "X-Tenant", Criteria := .Equality (B "a") }
     { Attributes := { Request := { Http := { Headers := [(B "x-tenant", B "a")] } } } } = .ok true := by decide
 
+/-- NO HIDDEN STATE: trigger rules and chain selection are functions of the request and the configuration: the regenerated inventory of internal/server shows no mutable field in ExtAuthZFilter and no package-level variable besides the two response constructors. -/
+theorem no_hidden_state : FilterInventory := filter_inventory
+
 end AuthProps.C08
 
 #print axioms AuthProps.C08.check_eq_judge
@@ -100,3 +104,4 @@ end AuthProps.C08
 #print axioms AuthProps.C08.default_deny
 #print axioms AuthProps.C08.untriggered_allowed
 #print axioms AuthProps.C08.code_matches_spec
+#print axioms AuthProps.C08.no_hidden_state
